@@ -12,7 +12,8 @@
    that each pre-fix step, switched on as a named deviation, violates it (sensitivity runs):
      "Docx!TabBreakDropped"      w:tab / w:br / w:cr emit nothing
      "Docx!BlockSdtLost"         block-level w:sdt children of the body are skipped
-     "Docx!NestedTableRepeated"  rows / cells collected with iter(): nested rows and cells too   *)
+     "Docx!NestedTableRepeated"  rows / cells collected with iter(): nested rows and cells too
+     "Docx!TextboxParagraphsGlued" paragraphs of a text box concatenated without separator        *)
 EXTENDS Doc
 
 CONSTANT WalkDev
@@ -34,7 +35,11 @@ WInls(is) == ConcatAll([k \in DOMAIN is |-> WInl(is[k])])
 \*           where a text box paragraph is a "P" whose text is the concatenation of its inner paragraphs
 RECURSIVE Elems(_), AllParasOfElems(_)
 
-ParaTextOfTbx(bs) == ConcatAll([k \in DOMAIN bs |-> IF bs[k][1] = "p" THEN WInls(bs[k][2]) ELSE <<>>])
+\* nested paragraphs are kept apart by newlines ("Docx!TextboxParagraphsGlued": pre-fix, plain concatenation)
+ParaTextOfTbx(bs) ==
+    LET ps == [k \in DOMAIN bs |-> IF bs[k][1] = "p" THEN WInls(bs[k][2]) ELSE <<>>]
+    IN IF "Docx!TextboxParagraphsGlued" \in WalkDev THEN ConcatAll(ps)
+       ELSE ConcatAll([k \in DOMAIN ps |-> IF k = 1 THEN ps[k] ELSE WS \o ps[k]])
 
 Elem(b) ==
     CASE b[1] = "p"   -> << <<"P", WInls(b[2])>> >>
